@@ -172,6 +172,24 @@ func genGraph(r *rand.Rand, flaw string) gDef {
 		if r.Intn(2) == 0 { // the order of the MSG: sections must not matter either
 			deps[2], deps[3] = deps[3], deps[2]
 		}
+		if r.Intn(2) == 0 {
+			// a package with a message of its own called Header, referenced by its qualified name, next to a bare "Header"
+			// field in the same package context: the bare name is the special case and means std_msgs/Header
+			loc := gType{"pkg/Header", body(1)}
+			std := gType{"std_msgs/Header", []gField{{Name: "seq", Written: "uint32", Base: "uint32", Arr: "scalar"}, {Name: "stamp", Written: "time", Base: "time", Arr: "scalar"},
+				{Name: "frame_id", Written: "string", Base: "string", Arr: "scalar"}}}
+			hasStd := false
+			for _, t := range d.Deps {
+				if t.Name == "std_msgs/Header" {
+					hasStd = true
+				}
+			}
+			tops = append(tops, gField{Name: "hh", Written: "Header", Base: "Header", Arr: "scalar"}, qual("ph", "pkg/Header"))
+			deps = append(deps, loc)
+			if !hasStd {
+				deps = append(deps, std)
+			}
+		}
 		d.Top = append(d.Top, tops...)
 		d.Deps = append(d.Deps, deps...)
 	case "missing":
